@@ -13,7 +13,8 @@ TECHNIQUE = ('exhaustive integer sweep in both modes against a reference ladder 
              'on/set/encode against a one-boolean model, generated and shrunk by Hypothesis)')
 RULE = ('(ladder) every integer in [-70000,70000] (thorough: [-2^22,2^22]) and within +-2 of every boundary of both '
         'ladders x mode {default, legacy via explicit True, legacy via the argument-less '
-        'call} x position {bare, in an array, in a table, nested 3 deep}: the emitted type '
+        'call} x position {bare, in an array, in a table, nested 3 deep, in an array after a '
+        'numerically equal float / Decimal / bool}: the emitted type '
         'tag and width of every integer (found by walking the output with the reference '
         'decoder) must be the first of b,s,u,I,i,l (legacy: b,s,I,l) that fits. (wide) '
         'uniform 64-bit integers and integers up to +-2^200: outside [-2^63,2^63-1] => '
@@ -39,6 +40,16 @@ WIDTH = {'b': 1, 's': 2, 'u': 2, 'I': 4, 'i': 4, 'l': 8}
 def place(n, pos):
     if pos == 'top':
         return 'value', n
+    if pos == 'after-equal-float':       # a numerically equal float / Decimal / bool first
+        import decimal
+        twins = []
+        if abs(n) < 2 ** 24:            # exactly representable in single precision
+            twins.append(float(n))
+        if abs(n) < 2 ** 31:
+            twins.append(decimal.Decimal(n))
+        if n in (0, 1):
+            twins.append(bool(n))
+        return 'array', twins + [n, {'k': n}] + twins
     if pos == 'array':
         return 'array', [n, 'x', n]
     if pos == 'table':
@@ -104,7 +115,7 @@ def with_mode(mode, fn):
         encode.support_deprecated_rabbitmq(False)
 
 
-POSITIONS = ['top', 'array', 'table', 'nested']
+POSITIONS = ['top', 'array', 'table', 'nested', 'after-equal-float']
 MODES = ['default', 'legacy-arg', 'legacy-noarg']
 
 
@@ -133,7 +144,7 @@ def ladder_bulk(tier, shard, nshards, rec):
             for k, v in enumerate(mine):
                 if k % 1024 == 0:
                     set_logging(k % 2048 == 0)
-                pos = POSITIONS[k % 4]
+                pos = POSITIONS[k % 5]
                 n += 1
                 if S.near_edge(v) or (legacy and pos == 'nested'):
                     nt += 1
